@@ -340,7 +340,9 @@ func writeUptoMdat(inMP4 *mp4.File, endTime, endTimescale uint64, w io.Writer) e
 	pos := uint64(0)
 	mvhd := inMP4.Moov.Mvhd
 	newDur := endTime * uint64(mvhd.Timescale) / endTimescale
-	mvhd.Duration = newDur
+	if newDur < mvhd.Duration { // never lengthen: a movie header that under-reports (e.g. 0 = unknown) is left as it is
+		mvhd.Duration = newDur
+	}
 	for _, trak := range inMP4.Moov.Traks {
 		prevDur := trak.Tkhd.Duration
 		trak.Tkhd.Duration = newDur
